@@ -92,6 +92,7 @@ structure Cl where
   movedKeys : List Bytes := []            -- keys of migrating slots already on the target
   repl : List (Nat × Nat) := []           -- replica, master
   staleAddr : List Nat := []              -- nodes that restarted on a new address the proxy's table does not know yet
+  seedGone : List Nat := []               -- nodes whose configured (seed) address is gone for good: the host set never learns the new one
   beliefs : List (Nat × Nat × Nat) := []  -- node, slot, the node it wrongly believes to own the slot
   armed : Bool := false                   -- a slot refresh has been triggered
   /-- positions (command indices) at which redirections must be zero: after a settled refresh -/
@@ -154,7 +155,8 @@ def doKeyed (c : Cl) (cmd : String) (k v : Bytes) : Cl × Reply × Nat :=
 def refresh (c : Cl) : Cl :=
   -- a refresh succeeds when some seed/known node is reachable; the table becomes the layout
   -- CLUSTER NODES is asked of a configured host: one of them has to be reachable at the address the proxy knows
-  if c.armed && (List.range c.seeds).any (fun i => c.up i && !c.staleAddr.contains i) then
+  -- (the slot table learns new addresses from CLUSTER NODES, the configured host set does not)
+  if c.armed && (List.range c.seeds).any (fun i => c.up i && !c.seedGone.contains i) then
     { c with table := c.owner, armed := false, settled := true, staleAddr := [] }
   else c
 
@@ -228,7 +230,7 @@ def stepTok (c : Cl) (o : Out) (tok : String) : Option (Cl × Out) :=
   else if ch == 'X' then body.toNat?.map fun n => ({ c with up := updF c.up n false, settled := false }, o)
   else if ch == 'U' then body.toNat?.map fun n => ({ c with up := updF c.up n true }, o)
   else if ch == 'Z' then body.toNat?.map fun _ => (c, o)
-  else if ch == 'A' then body.toNat?.map fun n => ({ c with staleAddr := n :: c.staleAddr, settled := false }, o)
+  else if ch == 'A' then body.toNat?.map fun n => ({ c with staleAddr := n :: c.staleAddr, seedGone := n :: c.seedGone, settled := false }, o)
   else if ch == 'Y' then
     match body.splitOn ":" with
     | [k, n, m] => do
